@@ -397,7 +397,9 @@ func (p *parser) directive() error {
 			p.cursor-- // cursor is advanced when we continue, so roll back one more
 			continue
 		}
+		written := p.tokens[p.cursor].NumLineBreaks()
 		p.tokens[p.cursor].Text = replaceEnvVars(p.tokens[p.cursor].Text)
+		p.tokens[p.cursor].envBreaks += p.tokens[p.cursor].NumLineBreaks() - written
 		p.block.Tokens[dir] = append(p.block.Tokens[dir], p.tokens[p.cursor])
 	}
 
